@@ -1518,7 +1518,8 @@ class Quantity(metaclass=QuantityMeta):
             # calculate quantum for the quantity's unit
             assert self.unit.quantum is not None, \
                 "Remainder != 0 for quantity w/o quantum."
-            quantum = self.unit.quantum
+            # the quantum of a negatively scaled unit is negative
+            quantum = abs(self.unit.quantum)
             if disperse_rounding_error:
                 if rem_amount < 0:
                     quantum = -quantum
